@@ -9,6 +9,7 @@ import MW.Lemmas.ImportPlan
 import MW.Lemmas.LedgerStatus
 import MW.Lemmas.ImportLive
 import MW.Lemmas.ImportExact
+import MW.Lemmas.ImportJoinMain
 namespace MW.Props.C07
 open MW MW.Model.Ledger MW.Model.Import MW.Lemmas.ImportPlan
 
@@ -608,19 +609,46 @@ theorem import_observed_static (batch : Nat) (hb : batch > 0) (c : Ctx) (w : Wid
   rw [hws]
   simp [hst']
 
-/-- FULL statement of stage 1, kept type-checked; NOT PROVED.  The instance holds other wallets, all ready; their
-    books for the whole chain are in the store (`Inv` for the keystore table without `w`'s addresses), `w` has just
-    been imported (cursor 0, nothing recorded, genesis without transactions), the chain stands still: when the rescan
-    reports done the store satisfies `Inv` for the FULL keystore table.  What `import_exact_static_partial` lacks for
-    this: the invariant pair "books of the ready wallets for the chain" + "books of `w` up to the cursor" (a joined
-    book: credits / debits / deposit records are disjoint by owner, tx records coincide where both exist, block
-    records merge by block position — `insertByPos`), the per-transaction refinement against that joined book
-    (`spendOne_refines` / `creditOne_refines` apply to it; the fold lemmas `spendFold_refines` /
-    `createFold_refines` assume `AllReady` and need copies that only ask readiness of the coins actually hit), and
-    "joined books of the two halves of the table = books of the table" (from `CredInv` / `DebitInv` / `GameInv` /
-    `bookOf_txrecs_iff`).  RECORDS (`filterImp_spec`) and the schedule are done and do not depend on the restriction
-    except through `mine_eq` (the filter looks at `w`'s addresses only). -/
-def import_exact_static_full : Prop :=
+open MW.Lemmas.ImportExact MW.Lemmas.ImportJoin MW.Lemmas.Ledger in
+/-- **import_exact_static_joined** (stage 1 of `import_exact_full`, OTHER WALLETS IN THE INSTANCE).  The instance
+    holds other wallets whose books for the whole followed chain are in the store (`Inv` for the keystore table
+    without `w`'s addresses — what the live follower maintains, C01), `w` has just been imported (cursor 0, balance
+    0, nothing recorded; genesis block without transactions), the node's chain stands still, the keystore table has
+    pairwise distinct addresses.  For ANY positive batch size and ANY number of batches: when the rescan reports done
+    the store satisfies C01's invariant `Inv` for the FULL keystore table — credits, unspent index, debits, deposit
+    records, tx records and block records are the books `bookOf` of the chain for ALL wallets, every ready wallet's
+    balance is its ledger total — `w` is ready, the follower's tip is unmoved, the other wallets' status and
+    balances are untouched and the unspent index keeps distinct keys.
+    Proof (lemma files ImportSub / ImportJoin / ImportJoinTx / ImportJoinRec / ImportJoinScan / ImportJoinFin /
+    ImportJoinMain): invariant `ScanJ` = the store is the JOIN of the books of the other wallets for the whole chain
+    and the books of `w` up to its cursor; block records are kept as a function of the tx records (`BlocksOK`),
+    which `insertByPos` preserves when it merges into a block record that other wallets' transactions populate
+    (fix D29); the per-transaction step refines the book operations on the join without `AllReady`
+    (`addImp_join`); at the tip the join of the halves is the books of the table (`join_credits`, …). -/
+theorem import_exact_static_joined (batch : Nat) (hb : batch > 0) (c : Ctx) (w : Wid)
+    (hC : ChainOK c) (hKN : KeysNodup c.own) (hw : w ∈ c.wallets)
+    (n : Nat) (s : Store) (v : Vol) (s' : Store) (v' : Vol) (items : List Item)
+    (hI : Inv { c with own := c.own.filter (fun e => e.2.1 ≠ w) } s c.node.chain)
+    (hG : ∃ G, c.node.chain[0]? = some G ∧ G.txs = [])
+    (hst : AMap.get s.status w = some ⟨some 0, false⟩) (hbal : AMap.get s.balance w = some 0)
+    (hbest : v.best.height + 1 = c.node.chain.length) (hnb : v.best.height + batch < 2 ^ 64)
+    (h : runBatches batch c w n s v = some (s', v', items)) :
+    Inv c s' c.node.chain ∧ AMap.get s'.status w = some ⟨none, false⟩ ∧ v'.best = v.best ∧
+      (∀ w', w' ≠ w → AMap.get s'.balance w' = AMap.get s.balance w' ∧ AMap.get s'.status w' = AMap.get s.status w') ∧
+      (KeysNodup s.unspent → KeysNodup s'.unspent) := by
+  obtain ⟨G, hG0, hGt⟩ := hG
+  have hS := scanJ_fresh hKN hC hI hG0 hGt hbal
+  obtain ⟨a, b, d, e⟩ := run_scanJ hb hKN hC (List.contains_iff_mem.2 hw) n s v 0 ⟨some 0, false⟩ s' v' hS hst rfl hbest
+    (Nat.zero_le _) hnb (runBatches_runImport batch c w n s v s' v' items h)
+  exact ⟨scanJ_tip_inv hKN hC a hbest hI e, b, d, fun w' hw' => ⟨e.1 w' hw', e.2.1 w' hw'⟩, e.2.2⟩
+
+open MW.Lemmas.ImportExact MW.Lemmas.ImportJoin MW.Lemmas.Ledger in
+/-- **import_exact_static_full** — the FULL statement of stage 1 (kept word for word from the round in which it was
+    a type-checked `def`), now PROVED: other READY wallets in the instance, their books for the whole chain in the
+    store, `w` just imported, the chain stands still: when the rescan reports done the store satisfies `Inv` for
+    the full keystore table.  (The readiness hypothesis `AllReady …` is not needed by the proof: nothing but the
+    rescan runs.)  `import_exact_static_joined` adds the status / tip / frame conclusions. -/
+theorem import_exact_static_full :
   ∀ (batch : Nat) (c : Ctx) (w : Wid) (n : Nat) (s : Store) (v : Vol) (s' : Store) (v' : Vol) (items : List Item),
     batch > 0 → Lemmas.ImportExact.ChainOK c → Lemmas.Ledger.KeysNodup c.own → w ∈ c.wallets →
     Lemmas.Ledger.AllReady (c.own.filter (fun e => e.2.1 ≠ w)) (readyWallets s c.wallets) →
@@ -629,7 +657,46 @@ def import_exact_static_full : Prop :=
     AMap.get s.status w = some ⟨some 0, false⟩ → AMap.get s.balance w = some 0 →
     v.best.height + 1 = c.node.chain.length → v.best.height + batch < 2 ^ 64 →
     runBatches batch c w n s v = some (s', v', items) →
-    Lemmas.Ledger.Inv c s' c.node.chain
+    Lemmas.Ledger.Inv c s' c.node.chain := by
+  intro batch c w n s v s' v' items hb hC hKN hw _ hI hG hst hbal hbest hnb h
+  exact (import_exact_static_joined batch hb c w hC hKN hw n s v s' v' items hI hG hst hbal hbest hnb h).1
+
+open MW.Lemmas.ImportExact MW.Lemmas.ImportJoin MW.Lemmas.Ledger in
+/-- … and the rescan does report done with other wallets in the instance: no batch fails, `best + 1` batches
+    always suffice -/
+theorem import_static_terminates_joined (batch : Nat) (hb : batch > 0) (c : Ctx) (w : Wid)
+    (hC : ChainOK c) (hKN : KeysNodup c.own) (hw : w ∈ c.wallets) (s : Store) (v : Vol)
+    (hI : Inv { c with own := c.own.filter (fun e => e.2.1 ≠ w) } s c.node.chain)
+    (hG : ∃ G, c.node.chain[0]? = some G ∧ G.txs = [])
+    (hst : AMap.get s.status w = some ⟨some 0, false⟩) (hbal : AMap.get s.balance w = some 0)
+    (hbest : v.best.height + 1 = c.node.chain.length) (hnb : v.best.height + batch < 2 ^ 64) :
+    (runImport batch c w (v.best.height + 1) s v).isSome = true := by
+  obtain ⟨G, hG0, hGt⟩ := hG
+  exact run_totalJ hb hKN hC (List.contains_iff_mem.2 hw) _ s v 0 ⟨some 0, false⟩
+    (scanJ_fresh hKN hC hI hG0 hGt hbal) hst rfl hbest (Nat.zero_le _) hnb (by omega)
+
+open MW.Lemmas.ImportExact MW.Lemmas.ImportJoin MW.Lemmas.Ledger in
+/-- **import_observed_static_joined.** After the rescan EVERY wallet of the instance — the restored one and the
+    ones that were there — reports what the chain specification says: unspent outputs as a multiset
+    `Spec.Chain.utxosOf`, and, for the ready ones, WalletBalance = `Spec.Chain.balance` (C01 `coins_perm` /
+    `balance_correct` on the invariant the rescan ends in). -/
+theorem import_observed_static_joined (batch : Nat) (hb : batch > 0) (c : Ctx) (w : Wid)
+    (hC : ChainOK c) (hKN : KeysNodup c.own) (hw : w ∈ c.wallets)
+    (n : Nat) (s : Store) (v : Vol) (s' : Store) (v' : Vol) (items : List Item)
+    (hI : Inv { c with own := c.own.filter (fun e => e.2.1 ≠ w) } s c.node.chain) (hU : KeysNodup s.unspent)
+    (hG : ∃ G, c.node.chain[0]? = some G ∧ G.txs = [])
+    (hst : AMap.get s.status w = some ⟨some 0, false⟩) (hbal : AMap.get s.balance w = some 0)
+    (hbest : v.best.height + 1 = c.node.chain.length) (hnb : v.best.height + batch < 2 ^ 64)
+    (hlen : c.node.chain.length < 2 ^ 32) (hcb : c.p.cbMaturity < 2 ^ 32)
+    (hstk : ∀ x ∈ Spec.Chain.ledgerOf c.own c.node.chain, ∀ f, x.cls = .stk f → f + 1 < 2 ^ 32)
+    (h : runBatches batch c w n s v = some (s', v', items)) (w' : Wid) (mc : Nat) :
+    ((coinsOf s' w').map (Spec.Chain.obsM s'.syncedTo)).Perm
+        ((Spec.Chain.utxosOf c.own c.node.chain w').map (Spec.Chain.obsS c.p (c.node.chain.length - 1))) ∧
+      ((readyWallets s' c.wallets).contains w' = true →
+        walletBalance s' w' mc = some (Spec.Chain.balance c.p c.own c.node.chain w' mc)) := by
+  obtain ⟨hI', _, _, _, hwf⟩ := import_exact_static_joined batch hb c w hC hKN hw n s v s' v' items hI hG hst hbal hbest hnb h
+  have H : ObsHyp c s' c.node.chain := ⟨hI', hwf hU, hC.valid, hC.heights, hlen, hcb, hstk⟩
+  exact ⟨coins_perm H w', fun hr => balance_correct H hr mc⟩
 
 /-- the regenerated constants have the shape the theorems assume (positive batch size and expiry window, the done
     sentinel is the top of uint64) -/
@@ -739,5 +806,100 @@ example :
      | .ok (s', _, fin) => some (fin, walletBalance s' "W1" 1, s'.txrecs.map (·.1.1))
      | .error _ => none) =
     ([("C1", true), ("T3x", false)], some (true, some ⟨500, 500, 0, 0⟩, ["C1"])) := by decide
+
+-- stage 1 with another wallet in the instance: every hypothesis of `import_exact_static_full` /
+-- `import_exact_static_joined` holds on the chain of `Ex` with a second wallet W2 (owner of X1) that is ready and
+-- whose books are in the store when W1 is imported.  W2's store is itself produced by a rescan (stage 1, single
+-- keystore), so its invariant comes from `import_exact_static_partial`.
+namespace Ex2
+/-- the instance while only W2 exists -/
+def ctxR : Ctx := { ctx with own := [("X1", ("W2", false))], wallets := ["W2"] }
+def stR0 : Store := { sync := [(3, "B3"), (2, "B2"), (1, "B1"), (0, "G")], syncedTo := 3,
+                      status := [("W2", ⟨some 0, false⟩)], balance := [("W2", 0)], addrs := [(("W2", false, "X1"), 0)] }
+/-- the instance after W1's keystore was imported -/
+def ctx2 : Ctx := { ctx with own := [("A1", ("W1", false)), ("X1", ("W2", false))], wallets := ["W1", "W2"] }
+/-- ImportWallet for W1: status "importing from 0", balance 0 -/
+def addW1 (s : Store) : Store :=
+  { s with status := AMap.put s.status "W1" ⟨some 0, false⟩, balance := AMap.put s.balance "W1" 0 }
+end Ex2
+open Ex2
+
+open MW.Lemmas.ImportExact MW.Lemmas.Ledger in
+theorem ex2_chainOK : ChainOK ctx2 := ⟨by decide, ex_chainOK.heights⟩
+
+open MW.Lemmas.ImportExact MW.Lemmas.Ledger in
+/-- W2's rescan (one batch) leaves C01's invariant for the view without W1, and W2 ready -/
+theorem ex2_invR (sR : Store) (vR : Vol) (items : List Item)
+    (h : runBatches 1000 ctxR "W2" 1 stR0 vol = some (sR, vR, items)) :
+    Inv { ctx2 with own := ctx2.own.filter (fun e => e.2.1 ≠ "W1") } (addW1 sR) ctx2.node.chain ∧
+      (readyWallets (addW1 sR) ctx2.wallets) = ["W2"] := by
+  have hAR : AllReady ctxR.own ["W2"] := by
+    intro a w' ch h
+    rw [show ctxR.own = [("X1", ("W2", false))] from rfl, AMap.get_cons] at h
+    split at h
+    · cases h; rfl
+    · cases h
+  have hCR : ChainOK ctxR := ⟨by decide, ex_chainOK.heights⟩
+  have hSc : Scan ctxR "W2" stR0 0 := by
+    refine scan_fresh (G := g) rfl rfl rfl rfl rfl rfl rfl rfl rfl ?_ rfl
+    intro h
+    match h with
+    | 0 => rfl
+    | 1 => rfl
+    | 2 => rfl
+    | 3 => rfl
+    | (n + 4) => simp [stR0, ctxR, ctx, AMap.get, Spec.Books.syncOf]
+  obtain ⟨hI, hst, _, _⟩ := import_exact_static_partial 1000 (by decide) ctxR "W2" hAR hCR rfl 1 stR0 vol sR vR items
+    ⟨some 0, false⟩ 0 hSc rfl rfl rfl (by decide) (by decide) h
+  have hst2 : AMap.get (addW1 sR).status "W2" = some ⟨none, false⟩ := by
+    show AMap.get (AMap.put sR.status "W1" _) "W2" = _
+    rw [AMap.get_put, if_neg (by decide)]; exact hst
+  have hst1 : AMap.get (addW1 sR).status "W1" = some ⟨some 0, false⟩ := by
+    show AMap.get (AMap.put sR.status "W1" _) "W1" = _
+    rw [AMap.get_put, if_pos rfl]
+  have hrw : readyWallets (addW1 sR) ctx2.wallets = ["W2"] := by
+    show List.filter _ ["W1", "W2"] = _
+    simp only [List.filter, hst1, hst2]
+    rfl
+  refine ⟨⟨⟨hI.agree.unspent, hI.agree.credits, hI.agree.debits, hI.agree.game, hI.agree.txrecs, hI.agree.blocks⟩,
+    ?_, hI.sync, hI.syncedTo⟩, hrw⟩
+  intro w' hw'
+  rw [hrw] at hw'
+  have : w' = "W2" := by simpa using hw'
+  subst this
+  show AMap.get (AMap.put sR.balance "W1" 0) "W2" = _
+  rw [AMap.get_put, if_neg (by decide)]
+  apply hI.bal "W2"
+  show (List.filter _ ["W2"]).contains "W2" = true
+  simp only [List.filter, hst]
+  rfl
+
+open MW.Lemmas.ImportExact MW.Lemmas.Ledger in
+/-- … so W1's three-batch rescan (batch size 1) in the instance that already holds W2 — T3 is recorded already
+    (W2 receives its change), B2's block record already lists [C2, T3] — ends in C01's invariant for BOTH wallets -/
+example (sR : Store) (vR : Vol) (itemsR : List Item) (hR : runBatches 1000 ctxR "W2" 1 stR0 vol = some (sR, vR, itemsR))
+    (s' : Store) (v' : Vol) (items : List Item) (h : runBatches 1 ctx2 "W1" 5 (addW1 sR) vol = some (s', v', items)) :
+    Inv ctx2 s' ctx2.node.chain := by
+  obtain ⟨hI, hrw⟩ := ex2_invR sR vR itemsR hR
+  refine import_exact_static_full 1 ctx2 "W1" 5 (addW1 sR) vol s' v' items (by decide) ex2_chainOK (by unfold Lemmas.Ledger.KeysNodup; decide) (by decide)
+    ?_ hI ⟨g, rfl, rfl⟩ ?_ ?_ rfl (by decide) h
+  · rw [hrw]
+    intro a w' ch ha
+    rw [show (ctx2.own.filter (fun e => e.2.1 ≠ "W1")) = [("X1", ("W2", false))] from rfl, AMap.get_cons] at ha
+    split at ha
+    · cases ha; rfl
+    · cases ha
+  · show AMap.get (AMap.put sR.status "W1" _) "W1" = _
+    rw [AMap.get_put, if_pos rfl]
+  · show AMap.get (AMap.put sR.balance "W1" 0) "W1" = _
+    rw [AMap.get_put, if_pos rfl]
+
+/-- both rescans do end, and then both wallets report what the chain says (W1: 300 in T3:0; W2: 5 + 199 + 5), and
+    B2's block record is in block order -/
+example : ((runBatches 1000 ctxR "W2" 1 stR0 vol).bind (fun r =>
+      (runBatches 1 ctx2 "W1" 5 (addW1 r.1) vol).map (fun r' =>
+        (r'.2.2.map (·.tx.id), walletBalance r'.1 "W1" 1, walletBalance r'.1 "W2" 1,
+         (AMap.get r'.1.blocks 2).map (·.2))))) =
+    some (["C1", "T3"], some ⟨300, 300, 0, 0⟩, some ⟨209, 209, 0, 0⟩, some ["C2", "T3"]) := by decide
 
 end MW.Props.C07
